@@ -19,7 +19,8 @@ runs the model on the op, and judges the IMPLEMENTATION's observation:
 * `removed` : no callback on a removed object
 
 Output, one line per op:
-    <case> <idx> outcome=<ok|DIFF> events=<ok|DIFF> order=<ok|BAD|na> life=<ok|BAD> removed=<ok|BAD> | model <outcome> <events by object>
+    <case> <idx> [MALFORMED ]outcome=<ok|DIFF> events=<ok|DIFF> order=<ok|BAD|na> life=<ok|BAD> removed=<ok|BAD> | model <outcome> <events by object>
+(`MALFORMED`: the op adds a system under a name that is already registered — outside the contract)
 -/
 namespace Mustache.Driver.Systems
 open Mustache Mustache.Systems
@@ -109,7 +110,9 @@ def judge (st : DState) (op : Op) (implOut : String) (implEvs : List Ev) : DStat
     | .update => if implOut == "ok" then (if orderVerdict st.m last' implEvs then "ok" else "BAD") else "na"
     | _ => "na"
   let f := fun (b : Bool) (bad : String) => if b then "ok" else bad
-  let line := s!"{st.caseId} {st.idx} outcome={f outcomeOk "DIFF"} events={f eventsOk "DIFF"} order={order} " ++
+  -- an op outside the contract (a second system under a registered name) makes the case meaningless
+  let wf := if opWf st.m op then "" else "MALFORMED "
+  let line := s!"{st.caseId} {st.idx} {wf}outcome={f outcomeOk "DIFF"} events={f eventsOk "DIFF"} order={order} " ++
     s!"life={f lifeOk "BAD"} removed={f removedOk "BAD"} | model {outcomeName out} {showByObject evs}"
   let nbad := (if outcomeOk && eventsOk && lifeOk && removedOk && order != "BAD" then 0 else 1)
   ({ st with m := m', implLast := last', idx := st.idx + 1, pending := none, bad := st.bad + nbad }, line)
